@@ -3,7 +3,7 @@ CONSTANTS
   AckMode = "shaped"
   ThrMode = "fixed"
   EmptyMode = "fixed"
-  RstMode = "pinned"
+  RstMode = "fixed"
   CfgSet <- SchedCfgs
   Ids = {1, 2}
   Hosts = {"h0", ""}
